@@ -49,6 +49,12 @@ CLAIMED = {
  "C17": dict(tech="forward may-taint over each function's CFG from LLM completions to template/expression/code evaluators (with a planted positive example on every run); decorator-based who-may-consume rule; exception-containment of the non-action consumers; handler totality through the call graph",
              text="Decides for all LLM outputs at once that no completion-derived value reaches a template, expression or code evaluator (literal_eval only for generated values), that every consumer of a completion runs as an @action under the dispatcher's containment (C03.a), and that the two consumers outside actions (v1 dynamic flow start: F15 repaired; v2 AddFlowsAction) are protected and total. 'Every hostile text gives a well-formed reply' beyond that containment argument is not decided.",
              ref="DESIGN.md C17"),
+ "C07": dict(tech="abstract interpretation (emit2) of the group expanders in expansion.py: emission traces over symbolic inputs, all branch-choice paths, several size assignments; wait-placement / count / handler-balance obligations on the generated control flow; AST shape of the DNF normaliser",
+             text="Decides on the code generator (i.e. for every program it will ever expand) that and-groups wait for all heads on success and fail at once, or-groups succeed at once and fail only after all alternatives failed, that every WaitForHeads counts exactly the heads of its fork, every forked branch returns to the end label, and failure handlers are pushed/popped in balance on every path. DNF equivalence for all formulas and the run-time merge dynamics are not decided.",
+             ref="DESIGN.md C07"),
+ "C12": dict(tech="abstract interpretation of both code generators: emit2 (Colang 2.x expanders: label/fork closure, scope pairing on the generated CFG), dispatch-exhaustiveness tables (grammar ops / element classes / slide branches), emit1 (Colang 1.0: affine identities of relative jump offsets)",
+             text="Decides the property on the generators rather than on sampled programs: every label/fork reference of every template resolves inside the template, scopes are closed on every exit (F6: `when...else` - known finding), composite elements and ops never survive the fixpoint, break/continue labels are filled, and the Colang 1.0 offsets land on their intended targets. Facts about individual shipped .co files are subsumed by the generator-level result.",
+             ref="DESIGN.md C12"),
 }
 NA = {
  "C18": "equality of string results over all chunkings of a stateful transducer; no structural necessary condition that is not a brittle proxy (DESIGN.md C18)",
